@@ -101,8 +101,8 @@ func concCoqCase(c *ConcCase) string {
 		cyc = append(cyc, fmt.Sprintf("%d", e.From))
 	}
 	final := "empty_state"
-	if res.Observed && res.final != nil {
-		final = newCoreEmitter().obs(res.final)
+	if res.Observed && res.Final != nil {
+		final = newCoreEmitter().obs(res.Final)
 	}
 	npanic := len(res.Panics)
 	if res.Fatal != "" {
